@@ -63,6 +63,10 @@ CLAIMED = {
                 text="TLC checks delivered-complete, within-max, no-phantom, bounded buffering and progress for every cut position (before/inside/after header, inside body) and "
                      "adversarial header values; the real decoders are validated invocation by invocation, run through a real channel whose peer closed (must become inactive, "
                      "not deliver endless messages) and fed random adversarial streams (no runtime fault, progress, maximum respected)."),
+    "C17": dict(engine="wire", design="3/C17", technique="TLA+ exact model of bufio under the four transport wrappers (Wire.tla) checked by TLC + replay and trace validation on transport.NewTransport",
+                text="Wire.tla models bufio.Writer/Reader exactly (direct write of large payloads on an empty buffer, fill-and-flush, one fill per read, minimum reader size) for "
+                     "buffered-both/read-only/write-only/raw variants; TLC checks no-reorder, flushed-means-delivered and read-no-loss over all operation sequences at the bound; "
+                     "sequences run on the real wrappers over a scripted net.Conn, the segments of every connection write are validated by TLC and bytes compared with the streams."),
 }
 NA = {}
 for p in props:
@@ -92,6 +96,7 @@ engines = {}
 for pid, c in CLAIMED.items():
     engines.setdefault(c["engine"], []).append(pid)
 ENG = {
+    "wire": ("spec/Wire.tla + spec/TraceWire.tla + harness/cmd/driver/wire.go", "exact bufio model; TLC exhaustive sequences; replay + trace validation on the real transport wrappers"),
     "frame": ("spec/Frame.tla + spec/TraceFrame.tla + harness/cmd/driver/frame.go", "TLA+ transcription of the frame codecs; TLC exhaustive checking over configurations/lengths/cut points; trace validation of the real codecs"),
     "bootstrap": ("spec/Bootstrap.tla + spec/TraceBootstrap.tla + harness/cmd/driver/boot.go", "TLA+ spec of the bootstrap; TLC exhaustive checking; replay + trace validation through the gate scheduler"),
     "pipeline": ("spec/Pipeline.tla + spec/TracePipeline.tla + harness/cmd/driver/pipe.go", "TLA+ reference model of the handler pipeline; TLC trace validation of programs run on the real pipeline"),
